@@ -121,9 +121,13 @@ def byte_table(f, fn, rule, domain=range(256)):
     loop = None
     for m in T.exprs(b["body"], "Match"):
         fl = T.for_loop_parts(m)
-        if fl and fl[1].get("k") == "Bind" and fl[1].get("ty") in ("u8", "char", "&u8"):
-            loop = fl
-            break
+        if fl:
+            pat = fl[1]
+            while pat.get("k") == "Deref":      # `for &ch in bytes`
+                pat = pat["sub"]
+            if pat.get("k") == "Bind" and pat.get("ty") in ("u8", "char", "&u8"):
+                loop = (fl[0], pat, fl[2])
+                break
     need(loop is not None, rule, fn, "(no `for ch in bytes` loop)")
     var = loop[1]["name"]
     inner = [m for m in T.exprs(loop[2], "Match") if m.get("source") == "Normal"]
